@@ -43,6 +43,9 @@ class _Guard:
     def __init__(self, n_assets, expr_nodes=200):
         self.max_calls = 64 * (expr_nodes + 8) * (n_assets + 1) ** 2
         self.max_list = MAX_LEGIT_LIST + 1
+        # the evaluator recurses along the expression tree (variables expanded): generated expressions are
+        # less than 50 levels deep, a recursion 200 deep is one that follows the model instead
+        self.max_depth = 200
         self.calls = 0
         self.depth = 0
 
@@ -59,7 +62,7 @@ class _Guard:
             if guard.depth == 0:
                 guard.calls = 0
             guard.calls += 1
-            if guard.calls > guard.max_calls or len(target_assets) > guard.max_list:
+            if guard.calls > guard.max_calls or len(target_assets) > guard.max_list or guard.depth > guard.max_depth:
                 raise BudgetExceeded()
             guard.depth += 1
             try:
